@@ -111,6 +111,11 @@ type harnessErr struct{ s string }
 
 func (e harnessErr) Error() string { return e.s }
 
+// stopLineage ends a history after a reported violation the model cannot follow.
+type stopLineage struct{ s string }
+
+func (e stopLineage) Error() string { return e.s }
+
 type inconclusive struct{ s string }
 
 func (e inconclusive) Error() string { return e.s }
@@ -370,7 +375,7 @@ func (lv *live) applyEvents(r *rec, l0 int64) error {
 			if old := m.file(e.name); old != nil && old != h {
 				lv.rep.violation(m, "rotation-overwrote-existing-file", -1,
 					fmt.Sprintf("the head was rotated to %s, which already existed with %d records (%d bytes)", e.name, len(old.Recs), old.Size), nil)
-				return harnessErr{"model cannot continue after a rotation onto an existing file"}
+				return stopLineage{"a rotation replaced an existing file"}
 			}
 			h.Size, h.Logical = e.size, e.size
 			h.Name = e.name
